@@ -257,6 +257,16 @@ func dumpSigs(dirs []string) {
 					out[d] = append(out[d], e)
 				case *ast.GenDecl:
 					for _, sp := range x.Specs {
+						if vs, ok := sp.(*ast.ValueSpec); ok { // package-level var / const: name, "<type>=<value>"
+							for i, nm := range vs.Names {
+								val := ""
+								if i < len(vs.Values) {
+									val = Src(vs.Values[i])
+								}
+								out[d] = append(out[d], ent{Kind: "var", Name: nm.Name, Sig: Src(vs.Type) + "=" + val})
+							}
+							continue
+						}
 						ts, ok := sp.(*ast.TypeSpec)
 						if !ok {
 							continue
